@@ -156,6 +156,36 @@ def r4(ctx):
     cfg = ana.cfg(fi)
     raises = [x for x in cfg.nodes if x.kind == "stmt" and isinstance(x.ast, ast.Raise)]
     ctx.check(len(raises) >= 1, fi, "invalid block ids are rejected", role="corner-guards", found=f"{len(raises)} raise(s)")
+    # guard census: the guards are Boolean combinations of comparisons of (block id, N, W) with small constants, so their truth is
+    # constant between consecutive thresholds; a grid reaching two past the largest constant visits every sign pattern.
+    guards = [(x, b.guard_term(x)) for x in raises]
+    consts = [abs(int(c.value)) for _x, g in guards for c in tm.subterms(g) if isinstance(c, tm.Lit) and isinstance(c.value, int) and not isinstance(c.value, bool)]
+    for _x, g in guards:
+        for c in tm.subterms(g):
+            if isinstance(c, tm.Cmp):
+                consts += [abs(int(co)) for _m, co in c.poly.terms if co.denominator == 1]
+    top = min(max(consts + [1]) + 2, 8)
+    grid = range(-top, top + 2)
+    rejected_valid, undecided, missed = None, None, None
+    for vb in grid:
+        for vn in grid:
+            for vw in grid:
+                env = {bid.key: tm.const(vb), N.key: tm.const(vn), W.key: tm.const(vw)}
+                vals = [tm.truth(tm.substitute(g, env)) for _x, g in guards]
+                valid = 0 <= vb < vw and vn >= 1
+                if any(v is None for v in vals):
+                    undecided = undecided or (vb, vn, vw)
+                elif valid and any(vals):
+                    rejected_valid = rejected_valid or ((vb, vn, vw), guards[vals.index(True)][0])
+                elif not valid and vn >= 1 and vw >= 1 and not any(vals):
+                    missed = missed or (vb, vn, vw)
+    if undecided is not None:
+        raise AnalysisError(f"a guard of _block_start_coordinates is not a comparison of its parameters with constants (undecided at {undecided})")
+    ctx.check(rejected_valid is None, fi, "the guards reject no valid (block id, N, W): 0 <= block id < W, N >= 1 (a window of one block is legal)",
+              line=rejected_valid[1].ast.lineno if rejected_valid else None, role="corner-guards:accept-valid", expected="no raise for valid arguments",
+              found=f"(block_id, N, W) = {rejected_valid[0]} raises" if rejected_valid else "")
+    ctx.check(missed is None, fi, "every block id outside [0, W) is rejected", role="corner-guards:reject-invalid",
+              expected="raise", found=f"(block_id, N, W) = {missed} passes" if missed else "")
 
 
 @rule("C11", "R5", "AGREE", "the compressed and the (row, column) form of a class list name the same positions", floor=2)
